@@ -37,6 +37,9 @@ RUNS = [
     ("sm2", "TestVgC08SM2Level1", "quick"),
     ("sm2", "TestVgC08SM2SignD", "quick"),
     ("sm2", "TestVgC08SM2SignK", "quick"),
+    ("sm2", "TestVgC08SM2Wrappers", "quick"),
+    ("internal", "TestVgC08InternalBaseMore", "thorough"),
+    ("internal", "TestVgC08InternalVarMore", "thorough"),
 ]
 
 EUCLID = re.compile(r"math/big\.\(\*Int\)\.(ModInverse|GCD|lehmerGCD|ModSqrt|Exp|exp|modSqrt\w*)|math/big\.(lehmer\w*|euclid\w*|Jacobi)|math/big\.nat\.(expNN\w*|modInverse|divLarge|divBasic)|math/big\.\(\*Int\)\.(Div|Quo|Rem|QuoRem|DivMod)$")
